@@ -341,6 +341,15 @@ fn text_route(st: &mut Stats, t: &Tt, n: u32) {
         format!("[{}, false] >= 1", dnf),
         format!("if true then ({}) else false", dnf),
         format!("forall q # exists r # ((q <=> r) & ({}))", dnf),
+        // constants as operands of every connective
+        format!("false <= -({})", dnf),
+        format!("({}) <= true", dnf),
+        format!("true => ({})", dnf),
+        format!("false nor -({})", dnf),
+        format!("true nand -({})", dnf),
+        format!("(({}) | false) & true", dnf),
+        format!("(({}) ^ false) <=> true", dnf),
+        format!("-({}) => -true", dnf),
     ];
     for text in texts {
         text_route_one(st, t, n, &text, &ordering);
